@@ -3,6 +3,7 @@ package main
 import (
 	"encoding/json"
 	"errors"
+	"reflect"
 	"sort"
 
 	openfgav1 "github.com/openfga/api/proto/openfga/v1"
@@ -10,6 +11,24 @@ import (
 	"github.com/openfga/language/pkg/go/transformer"
 	"github.com/openfga/language/pkg/go/utils"
 )
+
+func fileFieldOf(e error) string {
+	v := reflect.ValueOf(e)
+	for v.Kind() == reflect.Ptr || v.Kind() == reflect.Interface {
+		if v.IsNil() {
+			return ""
+		}
+		v = v.Elem()
+	}
+	if v.Kind() != reflect.Struct {
+		return ""
+	}
+	f := v.FieldByName("File")
+	if !f.IsValid() || f.Kind() != reflect.String {
+		return ""
+	}
+	return f.String()
+}
 
 func encMergeResult(m *openfgav1.AuthorizationModel, err error) map[string]any {
 	if err != nil {
@@ -21,7 +40,9 @@ func encMergeResult(m *openfgav1.AuthorizationModel, err error) map[string]any {
 				if errors.As(e, &se) {
 					es = append(es, A{1, encStr(se.Msg), encStr(se.File), se.Line.Start, se.Line.End, se.Column.Start, se.Column.End})
 				} else {
-					es = append(es, A{0, encStr(e.Error())})
+					// a DSL syntax error of one of the files; the name of that file, if the error type has such a field
+					// (read by reflection, so that this harness also builds against a tree without it)
+					es = append(es, A{0, encStr(e.Error()), encStr(fileFieldOf(e))})
 				}
 			}
 		} else {
